@@ -1,7 +1,7 @@
 """psv.props — which rules decide which property."""
 from . import core
 from .report import Check
-from .rules import cw, ed, mt, ts, vg
+from .rules import cw, ed, mt, ts, vg, pm, ax
 
 
 def c18(tier):
@@ -112,7 +112,41 @@ def c07(tier):
     return C.finish()
 
 
-TABLE = {"C18": c18, "C08": c08, "C12": c12, "C20": c20, "C13": c13, "C07": c07}
+def c15(tier):
+    C = Check("C15", tier,
+              explanation="permuteDimensions decided structurally on its instantiated body: every per-dimension member (derived from clear()) is "
+              "rewritten (TS-4p); all attribute gathers use one index pair (i, permutation[i]), temporaries are copied back to the member they "
+              "were gathered from, the inverse map is built and used only to scatter coefficients with the new strides, strides are recomputed "
+              "from the permuted axes (CL-5); the argument is validated as a permutation before any member write (VG-3); nothing that may "
+              "raise follows the first member write (TS-2); the C wrapper maps failures (CW-1/2). Identities are by declaration, not by name. "
+              "Does not decide the arithmetic of the coefficient transposition over runtime shapes, nor the inverse round trip.",
+              assumptions=["extents may be null only for tables built by the stacking constructor; permuteDimensions assumes it is present"])
+    P = core.load(tier=tier)
+    pm.run(P, C)
+    ts.ts2(P, C, only=("permuteDimensions",), rule_floor=1)
+    cw.cw1(P, C, only=("splinetable_permute",))
+    cw.cw2(P, C, only=("splinetable_permute",))
+    C.extra["units"] = sorted(P.units.keys())
+    return C.finish()
+
+
+def c16(tier):
+    C = Check("C16", tier,
+              explanation="Auxiliary key store decided structurally: the whole key API instantiates (API-1), write_key decides every rejection before "
+              "any allocation or store (TS-1w), one reserved-keyword predicate is shared by write_key, both reader passes and countAuxKeywords and "
+              "the passes skip the same cards (FS-4), the predicate covers the writer's own keys and the structural header keywords (FS-5), the "
+              "length arithmetic cannot wrap (UW-3), and no raising element leaves a modified store unprotected (TS-2 on write_key / remove_key). "
+              "Does not decide the map semantics over operation histories, nor that cfitsio preserves every accepted value byte for byte.",
+              assumptions=["the structural keyword table in psv/rules/ax.py lists the cards cfitsio writes into a primary image header"])
+    P = core.load(tier=tier)
+    ax.run(P, C)
+    ts.ts2(P, C, only=("write_key", "remove_key"), rule_floor=2)
+    cw.cw1(P, C, only=("splinetable_get_key", "splinetable_read_key", "splinetable_write_key"))
+    C.extra["units"] = sorted(P.units.keys())
+    return C.finish()
+
+
+TABLE = {"C16": c16, "C15": c15, "C18": c18, "C08": c08, "C12": c12, "C20": c20, "C13": c13, "C07": c07}
 
 
 def run(prop, tier):
